@@ -53,6 +53,21 @@ def census_globals(pr, repo):
                         memo.append('%s.%s' % (m.name, n.name))
     pr.add(Ground('GW: no memoising decorator (lru_cache / cache / cached_property) in propka/ - a cache is state that outlives a call',
                   not memo, detail=str(memo), kind='aux', backend='frame-checker'))
+    modmut = []
+    for m in repo.all_modules():
+        names = {k for k, v in m.assigns.items() if isinstance(v, (_ast.Dict, _ast.List, _ast.Set)) or
+                 (isinstance(v, _ast.Call) and _ast.unparse(v.func).split('.')[-1] in ('dict', 'list', 'set', 'defaultdict', 'OrderedDict'))}
+        for n in _ast.walk(m.tree):
+            if isinstance(n, (_ast.FunctionDef, _ast.AsyncFunctionDef)):
+                for x in _ast.walk(n):
+                    if isinstance(x, _ast.Subscript) and isinstance(x.ctx, (_ast.Store, _ast.Del)) and isinstance(x.value, _ast.Name) \
+                            and x.value.id in names:
+                        modmut.append('%s.%s: %s[...] = ' % (m.name, n.name, x.value.id))
+                    if isinstance(x, _ast.Call) and isinstance(x.func, _ast.Attribute) and isinstance(x.func.value, _ast.Name) \
+                            and x.func.value.id in names and x.func.attr in frames.MUTATORS:
+                        modmut.append('%s.%s: %s.%s()' % (m.name, n.name, x.func.value.id, x.func.attr))
+    pr.add(Ground('GW: no function writes into a module-level dict / list / set (a table that outlives the call)', not modmut,
+                  detail=str(sorted(set(modmut)))[:400], kind='aux', backend='frame-checker'))
     pr.add(Ground('GW: no global/nonlocal statement in propka/', not globals_stmt, detail=str(globals_stmt), kind='aux', backend='frame-checker'))
     pr.add(Ground('GW: no mutable default argument in propka/', not mutable_defaults, detail=str(mutable_defaults), kind='aux', backend='frame-checker'))
     pr.add(Ground('GW: no mutable class-level attribute (shared between instances) in propka/', not mutable_class_attrs,
@@ -435,6 +450,22 @@ def bounded(pr):
                                      'differ from processing it alone' % os.path.basename(f), 'replay': None})
     except (Exception, SystemExit) as e:    # noqa
         viol.append({'what': 'several files in one invocation: %s: %s' % (type(e).__name__, e), 'replay': None})
+    # object addresses are process history too: a residue selection whose list object lives where an earlier calculation's list lived
+    try:
+        s1 = [('E', 29, ' '), ('E', 57, ' ')]
+        s2 = [('I', 19, ' '), ('I', 56, ' ')]
+        want2 = native.titrated_with_list('3SGB-subset', list(s2))
+        want1 = native.titrated_with_list('3SGB-subset', list(s1))
+        for a_, b_, wa, wb in ((s1, s2, want1, want2), (s2, s1, want2, want1)):
+            ev += 1
+            g1, g2, rec = native.recycled_address_selections('3SGB-subset', a_, b_)
+            classes.add('recycled option list: %s' % rec)
+            if (g1 != wa or g2 != wb) and len(viol) < 3:
+                viol.append({'what': '3SGB-subset with options.titrate_only = %r after a calculation with %r whose list object was freed '
+                                     '(new list at the %s address): titrated %r, alone %r' % (b_, a_, 'same' if rec else 'another', g2, wb),
+                             'replay': None})
+    except (Exception, SystemExit) as e:    # noqa
+        viol.append({'what': 'recycled option list: %s: %s' % (type(e).__name__, e), 'replay': None})
     # the real command-line entry point (propka.run.main) given several files at once, in two orders: every written .pka file equals the
     # file written when that structure is the only input
     import contextlib
